@@ -614,16 +614,15 @@ impl DefaultFunction {
                 let arg2 = args[1].unwrap_integer()?;
                 let arg3 = args[2].unwrap_byte_string()?;
 
-                let skip: usize = if arg1.lt(&0.into()) {
-                    0
-                } else {
-                    arg1.try_into().unwrap()
+                // Both integers are machine `Int`s in the specification: a value outside
+                // of the 64-bit range is an evaluation failure, not something to clamp
+                // (and certainly not something to unwrap).
+                let (Some(skip), Some(take)) = (arg1.to_i64(), arg2.to_i64()) else {
+                    return Err(Error::EvaluationFailure);
                 };
-                let take: usize = if arg2.lt(&0.into()) {
-                    0
-                } else {
-                    arg2.try_into().unwrap()
-                };
+
+                let skip = usize::try_from(skip.max(0)).unwrap_or(usize::MAX);
+                let take = usize::try_from(take.max(0)).unwrap_or(usize::MAX);
 
                 let ret: Vec<u8> = arg3.iter().skip(skip).take(take).cloned().collect();
 
@@ -642,7 +641,12 @@ impl DefaultFunction {
                 let arg1 = args[0].unwrap_byte_string()?;
                 let arg2 = args[1].unwrap_integer()?;
 
-                let index: i128 = arg2.try_into().unwrap();
+                // The index is a machine `Int` in the specification.
+                let Some(index) = arg2.to_i64() else {
+                    return Err(Error::EvaluationFailure);
+                };
+
+                let index = index as i128;
 
                 if 0 <= index && index < arg1.len() as i128 {
                     let ret = arg1[index as usize];
